@@ -60,6 +60,7 @@ class DiffCtx:
         self.spec = outer.spec
         self.classes = collections.Counter()
         self.notes = []
+        self.hooks = getattr(outer, 'hooks', 'lines')
         self.pid = 'C18'
 
     def run(self, lines, exe='release'):
